@@ -40,6 +40,7 @@ class Spec:
     tags: tuple[str, ...] = ()
     time_depth: int = 1
     max_execs: int | None = None
+    pair_time: bool = False
 
 
 def limits_of(wf: Any) -> dict[str, int]:
@@ -47,7 +48,7 @@ def limits_of(wf: Any) -> dict[str, int]:
 
 
 def run_engine(ex: Execution, spec: Spec, oracle: Oracle) -> tuple[Any, list[Any]]:
-    cfg = RunConfig(pair_release=spec.pair, time_depth=spec.time_depth)
+    cfg = RunConfig(pair_release=spec.pair, time_depth=spec.time_depth, pair_time=spec.pair_time)
     if oracle.on_quiescent:
         cfg.on_quiescent.append(oracle.on_quiescent)
     with EngineExec(ex, cfg) as e:
